@@ -405,11 +405,12 @@ func ReplayManifestFile(fp *os.File, extMagic uint16, opt Options) (Manifest, in
 			return Manifest{}, 0, err
 		}
 		length := y.BytesToU32(lenCrcBuf[0:4])
-		// Sanity check to ensure we don't over-allocate memory.
-		if length > uint32(stat.Size()) {
-			return Manifest{}, 0, fmt.Errorf(
-				"Buffer length: %d greater than file size: %d. Manifest file might be corrupted",
-				length, stat.Size())
+		// A record cannot be longer than what is left of the file. If its header says so, the
+		// rest of the record never reached the disk (torn append): stop here, exactly as for the
+		// short read below, and let the caller truncate at the last complete record. This also
+		// keeps us from allocating more than the file can hold.
+		if int64(length) > stat.Size()-r.count {
+			break
 		}
 		var buf = make([]byte, length)
 		if _, err := io.ReadFull(&r, buf); err != nil {
